@@ -497,6 +497,31 @@ def pred_run_directions(seed: int) -> tuple[str, str] | None:
         _, err = call(h.run, c)
         if err:
             return ("run:raises", f"search {again + 2} on the same object raised {err} (seed {seed})")
+    # a search that legitimately gives up ('steps' after two iterations) leaves its reason on the object; a curvature
+    # search asked of that object afterwards (as `run` itself asks: active bounds, direction bounds, softest mode) still
+    # answers for the point it is given
+    if second.random() < 0.5:
+        h2 = HEF(pot, 1e-9, 2, 0.3, max_uphill_step_size=0.05, positive_eigenvalue_step=0.05)
+        x2 = cpt + np.array([second.uniform(-0.2, 0.2) for _ in range(d)])
+        x2[wall] = second.uniform(0.4, 0.9)
+        c.position = np.clip(x2, [b[0] for b in bounds], [b[1] for b in bounds])
+        _, err = call(h2.run, c)
+        if err:
+            return ("run:raises", f"a two-step search raised {err} (seed {seed})")
+        x3 = cpt + np.array([second.uniform(-0.2, 0.2) for _ in range(d)])
+        x3[wall] = second.uniform(0.3, 0.8)
+        c.position = np.clip(x3, [b[0] for b in bounds], [b[1] for b in bounds])
+        lo3, up3 = c.active_bounds()
+        h2.update_eigenvector_bounds(lo3, up3)
+        at3 = np.array(c.position, dtype=float).copy()
+        out3, err = call(h2.get_smallest_eigenvector, h2.generate_random_vector(d), c, lo3, up3)
+        if err:
+            return ("run:raises", f"a curvature search after a search that gave up raised {err} (seed {seed})")
+        if out3[0] is None:
+            return ("get_smallest_eigenvector:refused-after-failed-search",
+                    f"a search that gave up with reason {h2.failure!r} was followed by a curvature search at the interior point "
+                    f"{at3.tolist()} on the same object: no direction was returned (seed {seed}, d={d})")
+        log.append((at3, out3))
     w, U = np.linalg.eigh(A)
     lob, upb = np.array([b[0] for b in bounds]), np.array([b[1] for b in bounds])
     for n_call, (at, (v, ev, _nit)) in enumerate(log):
